@@ -65,17 +65,22 @@ class SymRange:
 
 
 class SList:
-    """python list of symbolic length: prefix described by (length, elem fn),
-    plus concretely appended items"""
-    def __init__(s, n, elem, tail=None):
+    """python list of symbolic length n (named prefix) plus concretely appended items"""
+    def __init__(s, n, name, tail=None, src=None, rev=False):
         s.n = n
-        s.elem = elem
+        s.name = name
         s.tail = list(tail or [])
+        s.src = src
+        s.rev = rev
 
     def m_append(s, v):
+        if s.rev:
+            raise Unsupported('append to a reversed symbolic list')
         s.tail.append(v)
 
     def get(s, k):
+        if isinstance(k, slice) and k.start is None and k.stop is None and k.step == -1 and not s.tail:
+            return SList(s.n, s.name, src=s.src or s, rev=not s.rev)
         raise Unsupported('indexing a symbolic list')
 
 
